@@ -294,7 +294,7 @@ def run(ctx):
     trval.run(ctx)
     tables = model_tables(ctx)
     initial_cache(ctx, tables, initial)
-    ratios_q = [2.0, 1.6, 4.0, 1.2, 10.0] + [float(v) for v in ctx.rng(3).uniform(1.05, 10, size=ctx.n(2, 20))]
+    ratios_q = [2.0, 1.6, 1.7320508075688772, 4.0, 1.2, 10.0] + [float(v) for v in ctx.rng(3).uniform(1.05, 10, size=ctx.n(2, 20))]
     nm = moment_tie(ctx, ratios_q[:ctx.n(4, 12)])
     singular = 0
     if tables is not None:
@@ -303,7 +303,7 @@ def run(ctx):
     ctx.cov['traces_validated_against_impl'] = ctx.cov['evaluations']
     ctx.sample({'example certificate': 'LogRule(n=1, method=central, order=4).rule(2.0) vs row 0 of the exact inverse of [[1/1!, 1/3!],[1/2, 1/(8*3!)]]'})
     if ctx.broken or ctx.thorough:
-        search(ctx, 10 if (ctx.broken or ctx.thorough) else 6, [2.0, 1.6, 4.0] if not ctx.thorough else ratios_q[:8], tables)
+        search(ctx, 10 if (ctx.broken or ctx.thorough) else 6, [2.0, 1.6, 4.0, 1.7320508075688772, 1.2345678912345] if not ctx.thorough else ratios_q[:8], tables)
     else:
         subclass_search(ctx)        # cheap, always on: the rule classes of Jacobian / Hessdiag / Hessian
     ctx.assumptions += ['the rule row is an oracle (LAPACK pinv): certified each run against the EXACT inverse of the model\'s moment matrix with the exact condition number; configurations with kappa > 1e13 are numerically singular (excluded by the property) and only counted',
